@@ -9,7 +9,11 @@ d = "/tmp/seed_%s%s" % (pid, suffix)
 hint = (" Prefer a less obvious place for the change than the first function that comes to mind: a helper it relies on, a "
         "variant or subclass that shares the behaviour (e.g. a TLS flavour, another server / store / doer class the statement "
         "also covers), an option or code path that default usage does not take, or a rarely exercised branch of the main path.") if suffix == "c" else ""
-if suffix >= "d":
+if suffix >= "e":
+    hint = (" Prefer a bug that sits at an exact boundary rather than in the common middle of the range: a value equal to a "
+            "limit, size or deadline, an empty or single-element collection, the first or the last element, two events that "
+            "fall into the same cycle / the same read / the same call, a resource touched exactly once more than usual.")
+elif suffix >= "d":
     hint = (" Prefer a bug that only shows through state carried over from an earlier operation on the same object (a second "
             "run / request / reopen / rebuild, an object reused after it finished, something cached on the instance or class), "
             "or through the interaction of two features or options that each work alone.")
